@@ -97,3 +97,9 @@ Section Recv.
     (if r_magic st then MAGIC else []) ++
     (match r_len st with Some n => be_enc 4 n | None => [] end) ++ r_buf st.
 End Recv.
+
+(* the sending side: networking/remote_peer.py ConnectedRemotePeer.send_message appends
+   MAGIC + struct.pack(">I", len(data)) + data to the connection's backlog; handle_can_send writes backlog entries out
+   in order, in whatever pieces the socket accepts.  [send_stream] is the byte stream a list of payloads becomes. *)
+Definition send_frame (p : bytes) : bytes := MAGIC ++ be_enc 4 (N.of_nat (length p)) ++ p.
+Definition send_stream (ps : list bytes) : bytes := concat (map send_frame ps).
